@@ -320,6 +320,8 @@ class Antecedent:
 
         proposition: Proposition | None = None
         variables = {v.name: v for v in engine.variables}
+        # number of tokens of each proposition, in order (to validate the position of the logical operators)
+        lengths: list[int] = []
         token: str | None = None
         for token in postfix.split():
             if state & s_variable:
@@ -327,12 +329,14 @@ class Antecedent:
                 if variable:
                     proposition = Proposition(variable)
                     stack.append(proposition)
+                    lengths.append(1)
                     state = s_is
                     settings.logger.debug(f"token '{token}' is a variable")
                     continue
 
             if state & s_is:
                 if Rule.IS == token:
+                    lengths[-1] += 1
                     state = s_hedge | s_term
                     settings.logger.debug(f"token '{token}' is a keyword")
                     continue
@@ -342,6 +346,7 @@ class Antecedent:
                 if token in factory:
                     hedge = factory.construct(token)
                     proposition.hedges.append(hedge)  # type: ignore
+                    lengths[-1] += 1
                     state = s_variable | s_and_or if isinstance(hedge, Any) else s_hedge | s_term
                     settings.logger.debug(f"token '{token} is hedge")
                     continue
@@ -351,6 +356,7 @@ class Antecedent:
                 term = terms.get(token)
                 if term:
                     proposition.term = term  # type: ignore
+                    lengths[-1] += 1
                     state = s_variable | s_and_or
                     settings.logger.debug(f"token '{token} is term")
                     continue
@@ -391,6 +397,22 @@ class Antecedent:
         if len(stack) != 1:
             errors = " ".join(str(element) for element in stack)
             raise SyntaxError(f"unable to parse the following expressions: {errors}")
+
+        # the postfix notation forgets where the logical operators were: in the (infix) text,
+        # every proposition but the first must be preceded by exactly one logical operator
+        infix = [t for t in Function.format_infix(self.text).split() if t not in {"(", ")"}]
+        index = 0
+        for position, length in enumerate(lengths):
+            if position > 0:
+                if infix[index] not in {Rule.AND, Rule.OR}:
+                    raise SyntaxError(f"expected logical operator, but found '{infix[index]}'")
+                index += 1
+            for token in infix[index : index + length]:
+                if token in {Rule.AND, Rule.OR}:
+                    raise SyntaxError(f"expected variable, but found logical operator '{token}'")
+            index += length
+        if index != len(infix):
+            raise SyntaxError(f"unexpected logical operator '{infix[index]}'")
 
         self.expression = stack.pop()
 
